@@ -17,7 +17,7 @@ SELECT = {
     # C04 also carries the supporting obligations of the shared world (representation invariants of the output state, loop
     # invariants of the flush loops, frames): they are what "bytes leave in order, once" rests on
     "C04": ("R3:", "R1[", "C04-", "monitor[", "total-never-grows", "returns-whether-sent", "accepted-range", "coverage:", "pre:owns-output-state",
-            "/inv:", "/inv-entry:", "/inv-preserved:", "frame:", "ensures:lookahead", "pre:worker", "pre:io", "__init__@IO/ensures:connected"),
+            "/inv:", "/inv-entry:", "/inv-preserved:", "frame:", "ensures:lookahead", "pre:worker", "pre:io", "__init__@IO/ensures:connected", "pre:callee-invariant"),
     "C05": ("W1-", "W2", "W4-", "W5-", "R5:", "C05-", "lock:", "coverage:", "raises:OSError", "raises-only"),
     "C11": ("R6:", "C11-", "close-when-flushed-means-queue-dropped", "R1[req]", "coverage:", "service@W[service]/loop0"),
     "C12": ("C12-", "W4-", "W5-", "R5:", "lock:", "W1-", "coverage:", "pre:numbytes", "pre:nonneg"),
